@@ -33,7 +33,9 @@ HDRS = {0: None, 1: {"k": 1, "note": "x END y"}, 2: {"other": [1, 2.5]},
         # user keys that spell the reserved words without the underscore: they are ordinary keys
         3: {"size": 12, "nrows": 3, "delim": "x", "dtype": "f8", "version": 7},
         # twin of header 1: the same length byte for byte, another value (a file replaced by one of equal size)
-        4: {"k": 2, "note": "x END y"}}
+        4: {"k": 2, "note": "x END y"},
+        # values whose text form calls a builtin (the header is stored as python text and evaluated when the file is re-opened)
+        5: {"empty": set(), "fs": frozenset([1, 2]), "r": range(3), "c": complex(1, -2), "b": bytearray(b"xy")}}
 
 
 def chunk(dk, start, n):
@@ -114,6 +116,7 @@ def main(ctx):
                             for k in KS:
                                 ops.append(("create", delim, hk, k))
                         ops.append(("create", delim, 3, 1))
+                        ops.append(("create", delim, 5, 1))
                         if spelling == "pinned-mtime":
                             ops.append(("create", delim, 4, KS[0]))
                     # append with a header argument: it is the creation header when the file does not exist yet,
